@@ -1,6 +1,9 @@
 """Developer tool: run registered checks against the seeded changes in /verif/seeded/<id>/patch.diff.
-usage: mutants.py [--tier quick] [--props C01,C03] [--all-checks] <seeded ids or prefixes ...>
-Applies each patch to /repo (git apply), runs the check(s), ALWAYS reverts (git checkout -- .)."""
+usage: mutants.py [--tier quick] [--props C01,C03] [--all-checks] [--jobs N] <seeded ids or prefixes ...>
+Default: applies each patch to /repo (git apply), runs the check(s), ALWAYS reverts (git checkout -- .).
+With --jobs N: each change gets its own scratch worktree of /repo's HEAD under /tmp (patch applied there, CFDP_REPO
+pointing at it, build/evidence/replays redirected with CFDP_VERIF_OUT), N changes at a time, /repo itself untouched;
+worktree and outputs are removed afterwards."""
 import json
 import subprocess
 import sys
@@ -14,11 +17,48 @@ def sh(cmd, **kw):
     return subprocess.run(cmd, shell=True, capture_output=True, text=True, **kw)
 
 
+def report(name, p, c, t0):
+    import re as _re
+    lines = [l for l in c.stdout.splitlines() if l.startswith(("VIOLATION", "KNOWN-FINDING", "DRIFT", "MACHINERY"))]
+    viol = [l for l in lines if l.startswith("VIOLATION")]
+    drift = [l for l in lines if l.startswith("DRIFT")]
+    m = _re.search(r'"clause": "([^"]+)"', viol[0]) if viol else None
+    txt = [f"{name} check {p}: exit {c.returncode} ({time.time() - t0:.0f}s) violations={len(viol)} drift={'yes' if drift else 'no'}"]
+    txt += ["    " + l[:420] for l in (viol[:2] + drift[:1] + [l for l in lines if l.startswith("MACHINERY")][:1])]
+    if c.returncode not in (0, 1):
+        txt.append("    " + c.stdout[-600:].replace("\n", "\n    "))
+    print("\n".join(txt), flush=True)
+    return (c.returncode, m.group(1) if m else "")
+
+
+def one_scratch(d, run, tier):
+    import os
+    import shutil
+    wt, out = Path(f"/tmp/mut/{d.name}"), Path(f"/tmp/mutout/{d.name}")
+    res = {}
+    sh(f"git -C /repo worktree remove --force {wt}")
+    r = sh(f"mkdir -p /tmp/mut && git -C /repo worktree add --detach {wt} HEAD && git -C {wt} apply {d / 'patch.diff'}")
+    try:
+        if r.returncode != 0:
+            print(d.name, "PATCH DOES NOT APPLY", r.stderr[:200])
+            return res
+        env = dict(os.environ, CFDP_REPO=str(wt), CFDP_VERIF_OUT=str(out))
+        for p in run:
+            t0 = time.time()
+            c = sh(f"./check {p} --tier {tier}", cwd=VERIF, timeout=5400, env=env)
+            res[(d.name, p)] = report(d.name, p, c, t0)
+    finally:
+        sh(f"git -C /repo worktree remove --force {wt}")
+        shutil.rmtree(out, ignore_errors=True)
+    return res
+
+
 def main():
     args = sys.argv[1:]
     tier = "quick"
     props = None
     allc = False
+    jobs = 0
     ids = []
     while args:
         a = args.pop(0)
@@ -28,13 +68,22 @@ def main():
             props = args.pop(0).split(",")
         elif a == "--all-checks":
             allc = True
+        elif a == "--jobs":
+            jobs = int(args.pop(0))
         else:
             ids.append(a)
     claimed = [c["property_id"] for c in json.loads((VERIF / "MANIFEST.json").read_text())["checks"]]
     dirs = sorted(d for d in (VERIF / "seeded").iterdir() if d.is_dir() and not d.name.startswith("_")
                   and (not ids or any(d.name.startswith(i) for i in ids)))
-    assert sh("git -C /repo status --porcelain").stdout.strip() == "", "repo not clean"
     results = {}
+    if jobs:
+        from concurrent.futures import ThreadPoolExecutor
+        with ThreadPoolExecutor(jobs) as ex:
+            for part in ex.map(lambda d: one_scratch(d, props or (claimed if allc else [d.name.split("-")[0]]), tier), dirs):
+                results.update(part)
+        dirs = []
+    else:
+        assert sh("git -C /repo status --porcelain").stdout.strip() == "", "repo not clean"
     for d in dirs:
         own = d.name.split("-")[0]
         run = props or (claimed if allc else [own])
@@ -59,7 +108,8 @@ def main():
                     print("    " + c.stdout[-600:].replace("\n", "\n    "))
         finally:
             sh("git -C /repo checkout -- .")
-    assert sh("git -C /repo status --porcelain").stdout.strip() == "", "repo not clean after run"
+    if not jobs:
+        assert sh("git -C /repo status --porcelain").stdout.strip() == "", "repo not clean after run"
     if not ids and not props:
         lines = ["# Seeded changes vs. the registered checks (last full run of harness/mutants.py, tier %s)" % tier, "",
                  "| change | check | exit | first VIOLATION clause |", "|---|---|---|---|"]
